@@ -419,6 +419,20 @@ class Evaluator:
                     if f.id == "repr" and not isinstance(args[0], (str, int, float, bool, type(None), tuple, list)):
                         raise Unknown("repr of a value outside the finite domain")
                     return {"ord": ord, "chr": chr, "hex": hex, "oct": oct, "bin": bin, "repr": repr, "round": round, "divmod": divmod, "pow": pow}[f.id](*args)
+                if f.id == "iter" and len(args) == 1 and "iter" not in self.env:
+                    return iter(list(args[0]))
+                if f.id == "next" and args and "next" not in self.env and not e.keywords:
+                    src = args[0]
+                    if isinstance(e.args[0], ast.GeneratorExp) and isinstance(src, list):
+                        src = iter(src)  # generator expressions are evaluated eagerly: a one-shot use sees the first item
+                    if not hasattr(src, "__next__"):
+                        raise EvalRaise("TypeError", e)
+                    try:
+                        return next(src)
+                    except StopIteration:
+                        if len(args) > 1:
+                            return args[1]
+                        raise EvalRaise("StopIteration", e)
                 if f.id == "zip":
                     return list(zip(*args))
                 if f.id == "enumerate":
